@@ -785,3 +785,27 @@ Example C19_skip_census_nonvacuous :
   /\ calls_guarded "addTableChange"%string = true /\ calls_guarded "ColumnChange"%string = true
   /\ calls_guarded "TableAttrDiff"%string = false /\ unguarded_kinds <> [].
 Proof. split; [vm_compute; discriminate|]. split; [reflexivity|]. repeat split; try (vm_compute; reflexivity). vm_compute. discriminate. Qed.
+
+(** C19_excludeX_exact.  With every glob well formed (then [chains_ok]: C19_chains_ok_wf) the call on a realm with
+    every resource kind SUCCEEDS, and its result is exact at once for: the schemas, the view names, the functions and
+    the procedures (C19_excludeX_names_ref) and -- through the projection -- the tables with their columns, indexes,
+    foreign keys and checks ([ref_realm] of C19_exclude_exact_except). *)
+Theorem C19_excludeX_exact :
+  forall (link : bool * bool) (r : xrealm) (patterns : list bytes) (G : list (list bytes)),
+    patterns <> [] -> split patterns = EOk G -> chains_ok G ->
+    exists r', ExcludeRealmX link r patterns = EOk r'
+      /\ map names_of (xr_schemas r')
+         = map (ref_names G) (filter (fun s => negb (xschema_hit G (xs_name s))) (xr_schemas r))
+      /\ proj_realm r' = ref_realm link G (proj_realm r).
+Proof.
+  intros link r patterns G Hne Hs HG.
+  destruct (ExcludeRealmX_total link r patterns G Hs HG) as [r' E]. exists r'.
+  split; [exact E|]. split; [exact (ExcludeRealmX_names link r patterns G r' Hne Hs E)|].
+  pose proof (ExcludeRealmX_proj link r patterns r' E) as P.
+  rewrite (ExcludeRealm_ref link (proj_realm r) patterns G Hs HG) in P. inversion P; reflexivity.
+Qed.
+Print Assumptions C19_excludeX_exact.
+
+Example C19_excludeX_exact_nonvacuous :
+  exists G, split [([109;46]%N ++ xex_users)%list] = EOk G /\ G = [[[109]%N; xex_users]].
+Proof. eexists. split; vm_compute; reflexivity. Qed.
